@@ -323,6 +323,23 @@ func (c *Ctx) Roles() *Roles {
 			}
 		}
 	}
+	// the hand-over through a package-level helper shared with the in-process API (`publishMessage(mgr, msg, subs,
+	// qoss)`): the method of the connection that reaches the subscriber lookup through one such call
+	if r.HandOver == nil {
+		for _, fn := range svcFuncs {
+			if recvNamed(fn) != "service" || fn.Parent() != nil {
+				continue
+			}
+			for _, hc := range c.hostedCalls(fn, mMethod(pkgTopics, "Manager", "Subscribers"), 1) {
+				if len(hc.Chain) == 1 {
+					if h := hc.Chain[0].Common().StaticCallee(); h != nil && h.Signature.Recv() == nil {
+						r.HandOver = fn
+					}
+				}
+			}
+		}
+	}
+
 	return r
 }
 
